@@ -60,9 +60,17 @@ enum Site {
     IPathFramed,
     PoolFramed,
     XattrMatchValueFramed,
+    INameFramed,
+    PathFramed,
+    XattrFramed,
+    XattrMatchNameFramed,
 }
 
-const SITES: [Site; 23] = [
+const SITES: [Site; 27] = [
+    Site::INameFramed,
+    Site::PathFramed,
+    Site::XattrFramed,
+    Site::XattrMatchNameFramed,
     Site::NameFramed,
     Site::IPathFramed,
     Site::PoolFramed,
@@ -124,6 +132,10 @@ fn tree(site: Site, s: &str) -> Option<Expr> {
         Site::IPathFramed => Expr::and(Expr::Test(Test::IPath(s.into())), Expr::Action(Action::FPrint("f".into()))),
         Site::PoolFramed => Expr::and(Expr::Test(Test::Pool(s.into())), Expr::Action(Action::Print0)),
         Site::XattrMatchValueFramed => Expr::and(Expr::Test(Test::XattrMatch("n".into(), s.into())), Expr::Action(Action::Printf(vec![Fmt::Field(Field::Name)]))),
+        Site::INameFramed => Expr::or(Expr::Test(Test::IName(s.into())), Expr::Action(Action::FPrint0("f".into()))),
+        Site::PathFramed => Expr::and(Expr::Test(Test::Path(s.into())), Expr::Action(Action::FPrintf("f".into(), vec![Fmt::Field(Field::Name)]))),
+        Site::XattrFramed => Expr::and(Expr::Test(Test::Xattr(s.into())), Expr::Action(Action::Print0)),
+        Site::XattrMatchNameFramed => Expr::and(Expr::Test(Test::XattrMatch(s.into(), "v".into())), Expr::Action(Action::Print0)),
         Site::FPrintFileAfterPrint => Expr::and(Expr::and(Expr::Test(Test::Name("sibling".into())), Expr::Action(Action::Print)), Expr::Action(Action::FPrint(s.into()))),
         Site::FPrintfFileAfterPrintf => Expr::or(
             Expr::and(Expr::Test(Test::Name("sibling".into())), Expr::Action(Action::Printf(vec![Fmt::Field(Field::Name), nl()]))),
@@ -192,8 +204,8 @@ fn baseline_for(site: Site, s: &str) -> String {
     let glob = s.contains(|c| c == '*' || c == '?' || c == '[');
     match site {
         Site::TimeSelector => "Y".into(),
-        Site::XattrMatchName | Site::XattrMatchValue | Site::XattrMatchValueFramed if s.contains('\'') || glob => format!("{MARK}*"),
-        Site::Name | Site::IName | Site::Path | Site::IPath | Site::NameFramed | Site::IPathFramed if glob => format!("{MARK}*"),
+        Site::XattrMatchName | Site::XattrMatchValue | Site::XattrMatchValueFramed | Site::XattrMatchNameFramed if s.contains('\'') || glob => format!("{MARK}*"),
+        Site::Name | Site::IName | Site::Path | Site::IPath | Site::NameFramed | Site::IPathFramed | Site::INameFramed | Site::PathFramed if glob => format!("{MARK}*"),
         _ => MARK.into(),
     }
 }
